@@ -42,6 +42,38 @@ def main():
             shutil.copytree(src, os.path.join(dst, f), dirs_exist_ok=True)
         else:
             shutil.copy(src, os.path.join(dst, f))
+    if os.environ.get("SEEDCHECK_USE_WORKTREE"):
+        # /repo is in use (e.g. a thorough run is building from it): run the checks against the
+        # change's own worktree (same commit as /repo, change applied) through VERIF_REPO
+        meta["applies_to_repo"] = True
+        meta["run_against"] = "the change's worktree via VERIF_REPO (same commit as /repo)"
+        results = {}
+        for cid in [pid] + extra:
+            env = dict(os.environ)
+            env["VERIF_REPO"] = wt
+            env["VERIF_SKIP_REPLAYS"] = "1"
+            env["VERIF_EVIDENCE_DIR"] = "/var/tmp/seed-evidence"
+            env["VERIF_FOUND_DIR"] = "/var/tmp/seed-found"
+            t0 = time.time()
+            c = subprocess.run([os.path.join(VERIF, "check"), cid, "quick"], cwd=VERIF, env=env, capture_output=True, text=True)
+            viol = [l for l in c.stdout.splitlines() if l.startswith("  violation:")]
+            results[cid] = {"quick_generated_tier_exit": c.returncode, "wall_s": round(time.time() - t0, 1),
+                            "first_violation": viol[0][:400] if viol else ""}
+            env.pop("VERIF_SKIP_REPLAYS")
+            c2 = subprocess.run([os.path.join(VERIF, "check"), cid, "quick"], cwd=VERIF, env=env, capture_output=True, text=True)
+            results[cid]["quick_full_exit"] = c2.returncode
+        meta["checks"] = results
+        meta["caught_by_quick"] = any(r["quick_generated_tier_exit"] == 1 or r["quick_full_exit"] == 1 for r in results.values())
+        shutil.rmtree("/var/tmp/seed-evidence", ignore_errors=True)
+        shutil.rmtree("/var/tmp/seed-found", ignore_errors=True)
+        old = {}
+        mp = os.path.join(dst, "meta.json")
+        if os.path.exists(mp):
+            old = json.load(open(mp))
+        old.update(meta)
+        json.dump(old, open(mp, "w"), indent=1)
+        print(json.dumps(meta, indent=1))
+        return 0
     # run the checks against /repo with the patch applied
     st = subprocess.run("git -C /repo status --porcelain", shell=True, capture_output=True, text=True).stdout.strip()
     if st:
